@@ -1,5 +1,5 @@
 """C07 - filter JSON parsing is faithful, order-independent and round-trips."""
-from ..srules import S, find_values, contains_value, unbyref
+from ..srules import S, find_values, contains_value, unbyref, deep_values
 from ..guard import PROVED, VIOLATION, UNDECIDED
 from .common import g_obligations
 from . import parsers, escaping
@@ -83,28 +83,64 @@ def tag_bitmap(ctx, s, fn):
             if v[0] == "bin" and v[1] == "BitOr":
                 ors.append((b, i, v))
     ctx.floor("C07.found_tags-updates", len(ors), 1)
-    # the closure producing the bit
-    shl_ok = False
-    for cf in ctx.F.closures_of(fn.path):
-        ca = ctx.E.an(cf)
-        rets = [v for n, kk, v in s.return_kinds(cf)]
-        somes = [v for v in rets if v[0] == "agg" and v[1].endswith(":Some")]
-        if somes and all(v[2][0][0] == "bin" and v[2][0][1] == "Shl" and v[2][0][2][0] == "const" and v[2][0][2][1] == 1 for v in somes):
-            shl_ok = True
+    from ..srules import leaf_values
+
+    def one_hot(an_, v, depth=0):
+        """every value flowing into v is 1 << something (looking into closures and local functions that return it)"""
+        leaves = leaf_values(an_, v)
+        if not leaves:
+            return False
+        for l in leaves:
+            while l[0] == "cast":
+                l = l[-1]
+            if l[0] == "agg" and l[1].endswith(":None"):
+                continue
+            if l[0] == "agg" and l[1].endswith(":Some"):
+                if not one_hot(an_, l[2][0], depth + 1):
+                    return False
+                continue
+            if l[0] == "bin" and l[1] == "Shl" and l[2][0] == "const" and l[2][1] == 1:
+                continue
+            if l[0] == "proj" and depth < 3:
+                # payload of a value returned by a closure / local function
+                inner = l
+                while inner[0] == "proj":
+                    inner = inner[1]
+                cal = inner[1] if inner[0] == "try" else inner
+                cf = None
+                if cal[0] == "call":
+                    cf = ctx.F.fns.get(cal[1])
+                elif cal[0] == "icall":
+                    for c in ctx.F.closures_of(fn.path):
+                        cf = c if cf is None else cf
+                if cf is not None:
+                    ca = ctx.E.an(cf)
+                    rets = [v2 for n, kk, v2 in s.return_kinds(cf)]
+                    if rets and all(one_hot(ca, r, depth + 1) for r in rets):
+                        continue
+            return False
+        return True
     for b, i, v in ors:
-        bit = v[3] if v[2][0] == "phi" else v[2]
-        from_closure = contains_value(bit, lambda x: x[0] in ("call", "icall") or x[0] == "proj")
-        # duplicate test on the same value
+        bit = v[3] if (v[2][0] == "phi" and v[2][2] == ("local", k)) or v[2] == ("local", k) else v[2]
+        if contains_value(v[3], lambda y: y[0] == "phi" and y[2] == ("local", k)):
+            bit = v[2]
+        mask_ok = one_hot(an, bit)
+        # duplicate test on the same value: (found_tags & bit) != bit, or (found_tags & bit) == 0, dominates the update
         tested = False
         for f in ctx.E.facts(fn, b):
-            if f[0] in ("ne",) and f[1][0] == "bin" and f[1][1] == "BitAnd" and (f[1][3] == bit or f[1][2] == bit) and f[2] == bit:
-                tested = True
-        ok = shl_ok and from_closure and tested
+            if isinstance(f[1], tuple) and f[1] and f[1][0] == "bin" and f[1][1] == "BitAnd" and (f[1][3] == bit or f[1][2] == bit):
+                kv = f[2] if len(f) > 2 else None
+                kv = kv[1] if isinstance(kv, tuple) and kv and kv[0] == "const" else kv
+                if f[0] == "ne" and f[2] == bit:
+                    tested = True
+                if f[0] in ("eq", "eqc") and kv == 0:
+                    tested = True
+        ok = mask_ok and tested
         sp = fn.blocks[b]["stmts"][i]["sp"]
         s.add("S-ONEHOT", fn, "tag-letter-bitmap", "found_tags", sp, PROVED if ok else VIOLATION,
               "the value OR-ed into (and tested against) found_tags is 1 << letter-index" if ok else
               "the tag-letter bitmap is updated with something that is not a one-bit mask (mask=%s, same value tested=%s): "
-              "acceptance depends on which letters came earlier" % (shl_ok, tested), b)
+              "acceptance depends on which letters came earlier" % (mask_ok, tested), b)
 
 
 def emission_order(ctx, s, fn):
@@ -120,12 +156,23 @@ def emission_order(ctx, s, fn):
     from ..main import AnalysisError
     if rid is None or rpk is None:
         raise AnalysisError("id/author emission not found in the filter parser")
-    # kinds emission: the put whose data derives from `u as u16`; tags emission: json_unescape call
+    # the member loop: the smallest loop holding (nearly) all the member dispatch sites
+    disp = [b for b, info in an.calls() if s.nice(info["callee"] or "") == parsers.JP + "eat_colon_with_whitespace"]
+    main_loop = None
+    for H, body in loops.items():
+        if disp and sum(1 for d in disp if d in body) >= 6:
+            if main_loop is None or len(body) < len(loops[main_loop]):
+                main_loop = H
+    inloop = loops[main_loop] if main_loop is not None else set()
+    # kinds emission: the put, outside the member loop, whose data derives from a number read by read_u64 (however it
+    # is narrowed: cast, try_from, ...); tags emission: the json_unescape call
     unesc = first({"pocket_types::json::json_escape::json_unescape"})
     kinds_put = None
     for b, info in s.calls(fn, names={"pocket_types::json::put"}):
+        if b in inloop:
+            continue
         d = info["pre"][2] if info["pre"][2] is not None else info["args"][2]
-        if contains_value(d, lambda x: x[0] == "cast" and "u16" in str(x[2]) and contains_value(x, lambda y: y[0] == "call" and y[1].endswith("read_u64"))):
+        if any(contains_value(x, lambda y: y[0] == "call" and y[1].endswith("read_u64")) for x in deep_values(an, d, 5)):
             kinds_put = b
     seq = [("ids", rid), ("authors", rpk), ("kinds", kinds_put), ("tags", unesc)]
     ok = all(b is not None for _, b in seq)
@@ -133,13 +180,6 @@ def emission_order(ctx, s, fn):
         for (n1, b1), (n2, b2) in zip(seq, seq[1:]):
             if b1 in cfg.reach_from([b2]):
                 ok = False
-    # all after the member dispatch loop
-    disp = [b for b, info in an.calls() if s.nice(info["callee"] or "") == parsers.JP + "eat_colon_with_whitespace"]
-    main_loop = None
-    for H, body in loops.items():
-        if disp and sum(1 for d in disp if d in body) >= 6:
-            if main_loop is None or len(body) < len(loops[main_loop]):
-                main_loop = H
     after = main_loop is not None and all(b is not None and b not in loops[main_loop] for _, b in seq)
     s.add("S-ORDER", fn, "layout-order-emission", "ids<authors<kinds<tags", fn.sp, PROVED if (ok and after) else VIOLATION,
           "after the member loop the arrays are written in layout order, whatever order the members were found in" if (ok and after) else
